@@ -651,7 +651,10 @@ fn gen_program(rng: &mut Rng, arch: &'static str, thorough: bool, tr: &dyn Trans
     }
     // base address: any alignment relative to the 64-byte window
     let align = if is_x86(arch) { 1 } else { 4 };
-    let base = match rng.below(4) {
+    let wide = matches!(arch, "amd64" | "aarch64" | "aarch64eb");
+    let base = match rng.below(5) {
+        // beyond the sign bit of a 32-bit address; for the 64-bit translators far above 4 GiB
+        4 => (if wide { 0x7f12_3440_0000 } else { 0x9040_0000 }) + rng.below(64 / align) * align,
         0 => 0x40_0000,
         1 => 0x40_0000 + rng.below(64 / align) * align,
         2 => 0x1000 - rng.below(8) * align,
